@@ -386,6 +386,7 @@ def run(chk, runner_ok):
         rxsuite.run_rx(chk, groups=["c11"], per_regex=chk.n(40, 300))
     run_views(chk, model, [ml.gen_case(rng) for _ in range(chk.n(2500, 18000))], "VIEWS")
     run_views(chk, model, [ml.gen_case(rng, loose=True) for _ in range(chk.n(1500, 10000))], "VIEWS-loose")
+    ml.run_stateful(chk, model, chk.n(500, 5000))
     run_expand(chk, model)
     run_android(chk, model)
     run_mozpath(chk, model)
